@@ -918,6 +918,25 @@ func (a *txnAnalyzer) checkT5(r *Result, s *txnSite, pos string) {
 		return
 	}
 	okRb, detail := false, "rollback does not fan an inverse of "+eff.name+" out over the recorded plugins"
+	// a rollback that hands the recorded plugins to a method of the package (`return m.restore(ctx, …, recorded, …)`) is
+	// read in that method: its parameter stands for the recorded list
+	rb.inspectBody(func(n ast.Node) bool {
+		c, ok := n.(*ast.CallExpr)
+		if !ok {
+			return true
+		}
+		H := p.ByObj[rb.Callee(c)]
+		if H == nil || H.Body == nil || H.Pkg != rb.Pkg || objName(rb.Callee(c)) == "resource/cobalt.call" {
+			return true
+		}
+		for i, a := range c.Args {
+			if rb.objOf(a) == recObj && H.paramObj(i) != nil {
+				rb, recObj = H, H.paramObj(i)
+				return false
+			}
+		}
+		return true
+	})
 	rb.inspectBody(func(n ast.Node) bool {
 		c, ok := n.(*ast.CallExpr)
 		if !ok {
